@@ -171,6 +171,24 @@ class GaussU(ZooModel):
         return (v - lo) / (hi - lo)
 
 
+class GaussAsym(GaussU):
+    """Gaussian likelihood under a uniform prior, with nothing symmetric under an exchange of the two parameters: different means, widths and prior ranges
+    (a point whose coordinates are swapped has a different likelihood and usually lies outside the prior box)."""
+
+    def __init__(self):
+        super().__init__(d=2, mu=[1.2, -0.8], sigma=[0.5, 1.4])
+        self.bounds = {"x0": [-4.0, 6.0], "x1": [-9.0, 3.5]}
+        self._logvol = float(np.sum([np.log(b[1] - b[0]) for b in self.bounds.values()]))
+        self._init_boundary()
+
+    def sample_prior(self, n, rng):
+        from nessai.livepoint import numpy_array_to_live_points
+
+        lo = np.array([self.bounds[k][0] for k in self.names])
+        hi = np.array([self.bounds[k][1] for k in self.names])
+        return numpy_array_to_live_points(rng.uniform(lo, hi, (n, 2)), self.names)
+
+
 class GaussTN(ZooModel):
     """Product of truncated-normal priors (non-uniform) x Gaussian likelihood; analytic evidence.
 
@@ -475,6 +493,8 @@ def make(name, **kw):
         return GaussConstrained(**kw)
     if name == "G2f":
         return GaussFlat(2, **kw)
+    if name == "G2a":
+        return GaussAsym(**kw)
     if name == "Ex2":
         return Ex2(2, **kw)
     if name == "Tie2":
